@@ -34,7 +34,7 @@ def setup(ctx):
 
 def w_cross(ctx, rng, i):
     d = 2 + i % 2
-    kinds = tx.kinds(d) + tx.EXTRA_HOMOG
+    kinds = tx.kinds(d) + tx.EXTRA_HOMOG + (tx.DEGENERATE_2D if d == 2 else [])
     kind = kinds[(i // 2) % len(kinds)]
     cls = gen.SHAPE_CLASSES[(i // (2 * len(kinds))) % 8]
     nlm = int(rng.integers(0, 4))
@@ -59,7 +59,15 @@ def w_cross(ctx, rng, i):
         s.points = gen.hostile_array(rng, s.points)
     held = [(k, v) for k, v in s.landmarks.items()] if nlm else []
     bs = [None, None, 1, 2, 3, 50][rng.integers(0, 6)]
-    history = int(rng.integers(0, 3))
+    history = int(rng.integers(0, 4))
+    if history == 3:
+        # the transform's parameters were replaced after it was built (parameter vector, new target): only the new ones count
+        with taps.quiet():
+            t2 = tx.reparameterise(rng, t, kind, d)
+        if t2 is not None:
+            t = t2
+        else:
+            history = 0
     if history == 1:
         # the same transform object has already been applied to something of the same size
         other = gen.shape(rng, "PointCloud", d=d, n=s.n_points, scale=0.55 * tx.BOX, centred=True)
